@@ -48,6 +48,11 @@ type AbsResult struct {
 }
 
 func absEvalFunc(fn *ssa.Function, env *AbsEnv) AbsResult {
+	return absEvalFuncObs(fn, env, nil)
+}
+
+// absEvalFuncObs additionally reports every store to a non-local address (by access path) to obs.
+func absEvalFuncObs(fn *ssa.Function, env *AbsEnv, obs func(path string, v any)) AbsResult {
 	vals := map[ssa.Value]any{}
 	mem := map[ssa.Value]any{} // alloc -> value
 	var res AbsResult
@@ -219,6 +224,8 @@ func absEvalFunc(fn *ssa.Function, env *AbsEnv) AbsResult {
 			case *ssa.Store:
 				if al, ok := x.Addr.(*ssa.Alloc); ok {
 					mem[al] = eval(x.Val)
+				} else if obs != nil && env.W != nil {
+					obs(env.W.accessPath(x.Addr), eval(x.Val))
 				}
 			case *ssa.Alloc:
 				vals[x] = aOpaqueT{"alloc"}
